@@ -77,6 +77,13 @@ type Wire struct {
 	shortWrite  bool   // one-shot: the next Write of >= 2 bytes takes only a part and reports ErrTimeout
 	Glitched    int    // glitches delivered so far
 
+	// cut of the connection: after cutLeft more bytes have been handed to the reader the stream ends with endErr
+	// (io.EOF or ErrConnReset), whatever was in flight behind is lost, and onCut ends the other direction too
+	cutArmed bool
+	cutLeft  int
+	endErr   error
+	onCut    func()
+
 	nframed int64 // frames framed so far
 	Written int64 // bytes accepted
 	Served  int64 // bytes handed to the reader
@@ -100,6 +107,28 @@ func (w *Wire) SetCap(n int)       { w.mu.Lock(); w.cap = n; w.mu.Unlock() }
 func (w *Wire) SetCross(b bool)    { w.mu.Lock(); w.cross = b; w.mu.Unlock() }
 func (w *Wire) CloseWrite()        { w.mu.Lock(); w.eof = true; w.cond.Broadcast(); w.mu.Unlock() }
 func (w *Wire) closeRead()         { w.mu.Lock(); w.rclosed = true; w.cond.Broadcast(); w.mu.Unlock() }
+
+// ErrConnReset is how a connection that was cut with an error ends.
+var ErrConnReset = errors.New("vfc02: connection reset by peer (injected)")
+
+// CutAfter cuts the connection: the reader gets n more bytes (from those in flight and those written from now
+// on), then the stream ends with err (io.EOF: a plain end; ErrConnReset: an error); everything behind that
+// position is lost, and then() runs once (to end the other direction).
+func (w *Wire) CutAfter(n int, err error, then func()) {
+	w.mu.Lock()
+	w.cutArmed, w.cutLeft, w.endErr, w.onCut = true, n, err, then
+	w.cond.Broadcast()
+	w.mu.Unlock()
+}
+
+// Kill ends the stream at once with err; what is in flight is lost.
+func (w *Wire) Kill(err error) {
+	w.mu.Lock()
+	w.frames, w.cur, w.tail = nil, nil, nil
+	w.eof, w.endErr, w.cutArmed = true, err, false
+	w.cond.Broadcast()
+	w.mu.Unlock()
+}
 
 // SetEOFWithData: the Read that hands out the last bytes before the end of the stream reports io.EOF with them.
 func (w *Wire) SetEOFWithData(b bool) { w.mu.Lock(); w.eofWithData = b; w.mu.Unlock() }
@@ -182,6 +211,18 @@ func (w *Wire) Read(p []byte) (int, error) {
 		if w.rclosed {
 			return 0, net.ErrClosed
 		}
+		if w.cutArmed && w.cutLeft <= 0 {
+			// the cut position is reached: the connection ends here
+			w.frames, w.cur, w.tail = nil, nil, nil
+			w.eof, w.cutArmed = true, false
+			if f := w.onCut; f != nil {
+				w.onCut = nil
+				w.mu.Unlock()
+				f()
+				w.mu.Lock()
+			}
+			continue
+		}
 		if len(w.cur) > 0 || len(w.frames) > 0 {
 			break
 		}
@@ -191,6 +232,9 @@ func (w *Wire) Read(p []byte) (int, error) {
 			break
 		}
 		if w.eof {
+			if w.endErr != nil {
+				return 0, w.endErr
+			}
 			return 0, io.EOF
 		}
 		if !w.blocking {
@@ -210,6 +254,9 @@ func (w *Wire) Read(p []byte) (int, error) {
 	if w.cap > 0 && lim > w.cap {
 		lim = w.cap
 	}
+	if w.cutArmed && lim > w.cutLeft {
+		lim = w.cutLeft
+	}
 	n := 0
 	for n < lim {
 		if len(w.cur) == 0 {
@@ -223,6 +270,9 @@ func (w *Wire) Read(p []byte) (int, error) {
 		n += c
 	}
 	w.Served += int64(n)
+	if w.cutArmed {
+		w.cutLeft -= n
+	}
 	if w.readGlitch == "dataerr" && n > 0 {
 		w.readGlitch = ""
 		w.Glitched++
